@@ -208,7 +208,7 @@ example : ∃ c p, c < [3, 0, 2].length ∧ p < size [3, 0, 2] c ∧ toLocal [3,
 /-! ### pile-up and mask: the concatenated computation restricted to a chromosome -/
 
 theorem valid_iff (sizes : List Nat) (iv : Iv) :
-    iv.valid sizes = true ↔ iv.c < sizes.length ∧ iv.s < size sizes iv.c ∧ iv.e ≤ size sizes iv.c := by
+    iv.valid sizes = true ↔ iv.c < sizes.length ∧ iv.s < size sizes iv.c ∧ iv.e ≤ size sizes iv.c ∧ iv.s ≤ iv.e := by
   simp [Iv.valid, and_assoc]
 
 theorem omap_toGlobal (sizes : List Nat) (ivs : List Iv) (hv : ∀ iv ∈ ivs, iv.valid sizes = true) :
@@ -221,7 +221,7 @@ theorem covers_iff (sizes : List Nat) (iv : Iv) (c p : Nat) (hv : iv.valid sizes
     (hc : c < sizes.length) (hp : p < size sizes c) :
     (offset sizes iv.c + iv.s ≤ offset sizes c + p ∧ offset sizes c + p < offset sizes iv.c + iv.e) ↔
     (iv.c = c ∧ iv.s ≤ p ∧ p < iv.e) := by
-  obtain ⟨h1, h2, h3⟩ := (valid_iff sizes iv).mp hv
+  obtain ⟨h1, h2, h3, _⟩ := (valid_iff sizes iv).mp hv
   rcases Nat.lt_trichotomy iv.c c with h | h | h
   · have := offset_add_size_le sizes iv.c c h (by omega)
     constructor
@@ -523,8 +523,8 @@ theorem merge_checked_iff (d : Nat) (sizes : List Nat) (ivs : List Iv) :
     have hc : ivs.Pairwise (fun a b => a.c ≤ b.c) := by
       apply List.Pairwise.imp_of_mem _ hs
       intro a b ha hb hab
-      obtain ⟨_, ha2, _⟩ := (valid_iff sizes a).mp (hv a ha)
-      obtain ⟨hb1, hb2, _⟩ := (valid_iff sizes b).mp (hv b hb)
+      obtain ⟨_, ha2, _, _⟩ := (valid_iff sizes a).mp (hv a ha)
+      obtain ⟨hb1, hb2, _, _⟩ := (valid_iff sizes b).mp (hv b hb)
       refine Classical.byContradiction fun hlt => ?_
       have := offset_add_size_le sizes b.c a.c (by omega) (by have := ((valid_iff sizes a).mp (hv a ha)).1; omega)
       omega
@@ -604,7 +604,7 @@ chromosomes never appear, also for intervals that end exactly at the chromosome 
 theorem extract_reversed {α} (arrays : List (List α)) (stranded : Bool) (iv : Iv)
     (hv : iv.valid (arrays.map List.length) = true) :
     extractRow (arrays.map List.length) arrays.flatten stranded iv = some (specExtractRow arrays stranded iv) := by
-  obtain ⟨h1, h2, h3⟩ := (valid_iff _ iv).mp hv
+  obtain ⟨h1, h2, h3, _⟩ := (valid_iff _ iv).mp hv
   have hc : iv.c < arrays.length := by simpa using h1
   have hsz : size (arrays.map List.length) iv.c = (arrays.getD iv.c []).length := by
     simp [size, List.getD_eq_getElem?_getD, List.getElem?_map]
@@ -884,7 +884,7 @@ theorem location_inside (sizes : List Nat) (iv : Iv) (hv : iv.valid sizes = true
     location stranded w iv < size sizes iv.c ∧
     (w = 0 → stranded = true → location stranded w iv = if iv.fwd then (iv.s : Int) else (iv.e : Int) - 1) ∧
     (w = 1 → stranded = true → location stranded w iv = if iv.fwd then (iv.e : Int) - 1 else (iv.s : Int)) := by
-  obtain ⟨_, _, h3⟩ := (valid_iff sizes iv).mp hv
+  obtain ⟨_, _, h3, _⟩ := (valid_iff sizes iv).mp hv
   have hw' : w = 0 ∨ w = 1 ∨ w = 2 := by omega
   rcases hw' with rfl | rfl | rfl
   · cases stranded <;> cases hf : iv.fwd <;> simp [location, hf] <;> omega
@@ -917,8 +917,8 @@ theorem geometry_sort_genome_order (sizes : List Nat) (ivs : List Iv) (hv : ∀ 
   apply List.Pairwise.imp_of_mem _ hs
   intro a b ha hb h
   simp only [decide_eq_true_eq] at h
-  obtain ⟨ha1, ha2, _⟩ := (valid_iff sizes a).mp (hv a (hp.mem_iff.mp ha))
-  obtain ⟨hb1, hb2, _⟩ := (valid_iff sizes b).mp (hv b (hp.mem_iff.mp hb))
+  obtain ⟨ha1, ha2, _, _⟩ := (valid_iff sizes a).mp (hv a (hp.mem_iff.mp ha))
+  obtain ⟨hb1, hb2, _, _⟩ := (valid_iff sizes b).mp (hv b (hp.mem_iff.mp hb))
   rcases Nat.lt_trichotomy a.c b.c with hc | hc | hc
   · exact Or.inl hc
   · right; refine ⟨hc, ?_⟩; rw [hc] at h; omega
